@@ -76,10 +76,25 @@ fn body(ch: &Ch) -> Run {
     .collect();
   let redirect_lock = [Lock::Absent, Lock::Matching][ch.choose("redirecting_url_lock_state", 2)];
   let lockfile_redirect = ch.choose("lockfile_holds_redirect_seeded_from_to_seeded_target", 2) == 1;
+  // the cached metadata of a third package is stale, so that one requirement
+  // forces the whole build to restart with cache busting (metadata then loads
+  // with CacheSetting::Reload)
+  let restart = ch.choose("stale_cached_metadata_forces_a_cache_busting_restart", 2) == 1;
 
   let sched = Sched::new(SchedMode::Immediate);
   let loader = ScriptedLoader::new(sched);
-  loader.add_text("https://x/root.ts", ROOT);
+  loader.add_text("https://x/root.ts", &if restart { format!("{ROOT}import \"jsr:@s/r@1\";\nimport \"jsr:@s/r@2\";\n") } else { ROOT.to_string() });
+  let pr = RegPackage {
+    name: "@s/r".into(),
+    versions: vec![RegVersion::new("1.0.0", &[("/mod.ts", "export const r = 1;\n")]), RegVersion::new("2.0.0", &[("/mod.ts", "export const r = 2;\n")])],
+    raw_meta: None,
+  };
+  pr.install(&loader);
+  let stale_meta: Arc<[u8]> = {
+    let mut stale = RegPackage { name: "@s/r".into(), versions: vec![RegVersion::new("1.0.0", &[("/mod.ts", "export const r = 1;\n")])], raw_meta: None };
+    stale.versions.truncate(1);
+    Arc::from(stale.meta_json().to_string().into_bytes())
+  };
   loader.add("https://x/redir.ts", Entry::Redirect(url("https://x/target.ts")));
   loader.add("https://x/seeded_from.ts", Entry::Redirect(url("https://x/seeded_target.ts")));
   let pa = RegPackage {
@@ -126,6 +141,14 @@ fn body(ch: &Ch) -> Run {
   {
     let served_reload = Rc::new(served_reload.clone());
     *loader.injector.borrow_mut() = Some(Box::new(move |call: &LoadCall, _| {
+      if call.kind == "load" && call.specifier.as_str() == "https://jsr.io/@s/r/meta.json" && call.cache_setting == CacheSetting::Use {
+        return Answer::Load(Ok(Some(LoadResponse::Module {
+          content: stale_meta.clone(),
+          mtime: None,
+          specifier: call.specifier.clone(),
+          maybe_headers: None,
+        })));
+      }
       if call.cache_setting == CacheSetting::Reload
         && let Some(b) = served_reload.get(&call.specifier)
       {
@@ -228,6 +251,7 @@ fn body(ch: &Ch) -> Run {
     "manifest_lock": manifest_lock.iter().map(|l| format!("{l:?}")).collect::<Vec<_>>(),
     "redirecting_url_in_lockfile": redirect_lock == Lock::Matching,
     "lockfile_redirect_seeded_from_to_seeded_target": lockfile_redirect,
+    "stale_cached_metadata_forces_a_cache_busting_restart": restart,
     "reloaded_afterwards": if reload_of > 0 { Some(RES[reloadable[reload_of - 1]].url) } else { None },
   });
   let case = |extra: Value| {
@@ -297,7 +321,7 @@ fn body(ch: &Ch) -> Run {
         });
         let lossy = std::str::from_utf8(&served_first[&u]).is_err();
         run.violate(
-          if wrote_wrong && lossy && reload_of > 0 && RES[reloadable[reload_of - 1]].url == r.url {
+          if wrote_wrong && lossy && (restart || (reload_of > 0 && RES[reloadable[reload_of - 1]].url == r.url)) {
             "recorded-checksum-is-not-of-the-bytes-used@lossily-decoded".to_string()
           } else {
             format!("acceptable-content-rejected@{}", if r.registry { "registry-file" } else { "lockfile-url" })
@@ -319,7 +343,7 @@ fn body(ch: &Ch) -> Run {
       // at most one cache-bypassing retry for non-registry URLs, none for registry files
       let reloads = calls.iter().filter(|c| c.cache_setting == CacheSetting::Reload).count();
       // (one per request: the reload afterwards is a second request)
-      let requests = 1 + (reload_of > 0 && RES[reloadable[reload_of - 1]].url == r.url) as usize;
+      let requests = 1 + (reload_of > 0 && RES[reloadable[reload_of - 1]].url == r.url) as usize + restart as usize;
       if reloads > if r.registry { 0 } else { requests } {
         run.violate(
           "too-many-cache-bypassing-retries",
